@@ -180,6 +180,48 @@ func runC14(c *core.Ctx, b core.Batch) {
 					}
 					check(v.sc, m)
 				}
+				// (a') merge-decode into a destination that already holds content
+				// (the top level is then decoded eagerly, nested lazy fields still defer), then overwrite the input
+				for vi, nolazy0 := range []bool{true, false} {
+					src0 := mt.New()
+					fo0 := fo
+					fo0.Density = 15
+					gen.Fill(r, src0, fo0)
+					enc0, err0 := detBytes(src0)
+					if err0 != nil {
+						continue
+					}
+					ref := mt.New()
+					dst := mt.New()
+					if (proto.UnmarshalOptions{AllowPartial: true, NoLazyDecoding: true}).Unmarshal(append([]byte{}, enc0...), ref.Interface()) != nil {
+						continue
+					}
+					if (proto.UnmarshalOptions{AllowPartial: true, NoLazyDecoding: nolazy0}).Unmarshal(append([]byte{}, enc0...), dst.Interface()) != nil {
+						continue
+					}
+					if (proto.UnmarshalOptions{AllowPartial: true, NoLazyDecoding: true, Merge: true}).Unmarshal(append([]byte{}, enc...), ref.Interface()) != nil {
+						continue
+					}
+					in := append([]byte{}, enc...)
+					if err := (proto.UnmarshalOptions{AllowPartial: true, Merge: true}).Unmarshal(in, dst.Interface()); err != nil {
+						c.Violation("alias:merge-decode-error:"+name, detail("merge-decode"))
+						continue
+					}
+					for i := range in {
+						in[i] = ^in[i]
+					}
+					c.Eval()
+					sc := []string{"merge-decode-into-populated-overwrite", "merge-decode-into-lazy-populated-overwrite"}[vi]
+					c.Count("scenario:" + sc)
+					wantB, _ := detBytes(ref)
+					gotB, gerr := detBytes(dst)
+					if gerr != nil || !bytes.Equal(wantB, gotB) {
+						d := detail(sc)
+						d["wire0"] = core.Hex(enc0)
+						d["after"] = core.Hex(gotB)
+						c.Violation("alias:"+sc+":"+firstDiffOrType(snapOf(ref), snapOf(dst), name), d)
+					}
+				}
 				// (b) clone then mutate source, and the reverse
 				{
 					s1 := reDecode(mt, enc)
